@@ -6,7 +6,7 @@ Local Open Scope string_scope.
 Local Open Scope N_scope.
 
 Definition ex_coll : collinfo :=
-  {| ci_id := 101; ci_name := "c1"; ci_tid := 9101; ci_src := [("s_v0", "s")]; ci_tgt := [("t_v0", "t")]; ci_parts := [("_default", 7%Z)]; ci_dropped := false |}.
+  {| ci_id := 101; ci_name := "c1"; ci_tid := 9101; ci_src := [("s_v0", "s")]; ci_tgt := [("t_v0", "t")]; ci_parts := [("_default", 7%Z)]; ci_dropped := false; ci_seek := [] |}.
 Definition ex_msg (id ts : N) : smsg := {| m_kind := KInsert; m_id := id; m_coll := 101; m_part := 1; m_pname := "_default"; m_ts := ts; m_rows := 2; m_pospch := false |}.
 Definition ex_labels : list label :=
   [StartColl ex_coll;
